@@ -570,7 +570,9 @@ fn gen_f2(rng: &mut Rng, which: u8, o: &F2Opts) -> F2Spec {
         let bf = *rng.pick(&[0u8, 0, 2, 4, 8, 32]);
         raws.push(RawSpec { flags, feats, segs, child_byte, children, delta, fmt, bias, cps, bf, bad_cps: false });
     }
-    if o.allow_errors && n > 0 && rng.chance(1, 50) {
+    // (a missing sparse bit set is only a decode failure when nothing follows the entries: id string
+    // data placed after them would be read as the bit set)
+    if o.allow_errors && n > 0 && !id_strings && rng.chance(1, 50) {
         let last = raws.last_mut().unwrap();
         if (last.flags >> 4) & 3 == 1 { last.bad_cps = true; last.cps = IntSet::empty(); }
     }
@@ -613,10 +615,11 @@ fn gen_def(rng: &mut Rng, universe: u32) -> SubsetDefinition {
     SubsetDefinition::new(cps, feats, ds)
 }
 
-fn gen_f1(rng: &mut Rng, which: u8, allow_errors: bool) -> (F1Spec, u16, Vec<(u32, u32)>) {
+fn gen_f1(rng: &mut Rng, which: u8, allow_errors: bool, rich: bool) -> (F1Spec, u16, Vec<(u32, u32)>) {
     let wide = rng.chance(1, 3);
-    let max_entry: u16 = if wide { 256 + rng.below(60) as u16 } else { 1 + rng.below(30) as u16 };
+    let max_entry: u16 = if wide { 256 + rng.below(60) as u16 } else { (if rich { 8 } else { 1 }) + rng.below(30) as u16 };
     let max_gm: u16 = if allow_errors && rng.chance(1, 40) { max_entry + 1 }
+        else if rich { 1 + rng.below(5) as u16 }
         else if rng.chance(1, 4) { max_entry } else { rng.below(max_entry as u64 + 1) as u16 };
     let glyph_count = 2 + rng.below(20) as u32;
     let maxp = if allow_errors && rng.chance(1, 40) { glyph_count as u16 + 1 } else { glyph_count as u16 };
@@ -634,16 +637,16 @@ fn gen_f1(rng: &mut Rng, which: u8, allow_errors: bool) -> (F1Spec, u16, Vec<(u3
     let bm_len = (max_entry as usize + 8) / 8;
     let mut bitmap = vec![0u8; bm_len];
     for b in bitmap.iter_mut() {
-        if rng.chance(1, 3) { *b = rng.next() as u8 & rng.next() as u8; }
+        if rng.chance(1, if rich { 6 } else { 3 }) { *b = rng.next() as u8 & rng.next() as u8; }
     }
     let patch_format = if allow_errors && rng.chance(1, 40) { *rng.pick(&[0u8, 4]) } else { *rng.pick(&[1u8, 2, 3, 3]) };
-    let feature_map = if rng.chance(3, 5) {
-        let nrec = rng.below(5) as usize;
+    let feature_map = if rich || rng.chance(3, 5) {
+        let nrec = if rich { 1 + rng.below(5) as usize } else { rng.below(5) as usize };
         let mut recs = vec![];
         let mut total = 0usize;
         for _ in 0..nrec {
             let t = Tag::new(*rng.pick(&FEATURE_POOL));
-            let first_new = match rng.below(6) {
+            let first_new = match if rich { 3 + rng.below(3) } else { rng.below(6) } {
                 0 => max_gm,
                 1 => max_entry,
                 2 => if wide { 65535 } else { 255 },
@@ -745,6 +748,46 @@ fn info_key(v: &pmh::PatchUriView) -> (u64, usize, Vec<(u32, i32)>, std::cmp::Re
      std::cmp::Reverse(v.entry_order))
 }
 
+
+// ------------------------------------------------------------------------------------------
+// declarative IFT "check entry intersection", evaluated naively on the REAL decoded entries
+// (independent of the Lean model and of the cache / evaluation order of the implementation)
+// ------------------------------------------------------------------------------------------
+
+fn spec_local(e: &SubsetDefinition, d: &SubsetDefinition) -> bool {
+    let cp = e.codepoints.is_empty() || e.codepoints.iter().any(|c| d.codepoints.contains(c));
+    let ft = match (&e.feature_tags, &d.feature_tags) {
+        (FeatureSet::Set(s), FeatureSet::Set(o)) => s.is_empty() || s.iter().any(|t| o.contains(t)),
+        (FeatureSet::Set(_), FeatureSet::All) => true,
+        (FeatureSet::All, FeatureSet::Set(o)) => !o.is_empty(),
+        (FeatureSet::All, FeatureSet::All) => true,
+    };
+    let ds = match (&e.design_space, &d.design_space) {
+        (DesignSpace::Ranges(er), DesignSpace::Ranges(o)) => er.is_empty() || er.iter().any(|(tag, segs)| {
+            o.get(tag).map_or(false, |os| segs.iter().any(|a| os.iter().any(|b| a.start() <= b.end() && b.start() <= a.end())))
+        }),
+        (DesignSpace::Ranges(_), DesignSpace::All) => true,
+        (DesignSpace::All, DesignSpace::Ranges(o)) => !o.is_empty(),
+        (DesignSpace::All, DesignSpace::All) => true,
+    };
+    cp && ft && ds
+}
+
+fn spec_match(es: &[pmh::EntryView], d: &SubsetDefinition, i: usize) -> bool {
+    let Some(e) = es.get(i) else { return false };
+    if !spec_local(&e.subset_definition, d) { return false; }
+    if e.child_indices.is_empty() { return true; }
+    // children refer to prior entries (checked by the children-refer-to-prior-entries oracle): recursion ends
+    if e.child_indices.iter().any(|c| *c >= i) { return false; }
+    if e.conjunctive_child_match { e.child_indices.iter().all(|c| spec_match(es, d, *c)) }
+    else { e.child_indices.iter().any(|c| spec_match(es, d, *c)) }
+}
+
+/// the (application bit) list the specification offers for one format-2 table, in entry order
+fn spec_offer(es: &[pmh::EntryView], d: &SubsetDefinition) -> Vec<usize> {
+    (0..es.len()).filter(|i| !es[*i].ignored && spec_match(es, d, *i)).map(|i| es[i].uri.application_flag_bit_index).collect()
+}
+
 // ------------------------------------------------------------------------------------------
 // scenario = up to two tables + font
 // ------------------------------------------------------------------------------------------
@@ -795,13 +838,13 @@ impl Scenario {
     }
 }
 
-fn gen_scenario(rng: &mut Rng, allow_errors: bool, f1_weight: u64) -> Scenario {
+fn gen_scenario(rng: &mut Rng, allow_errors: bool, f1_weight: u64, rich: bool) -> Scenario {
     let mut maxp = 3u16;
     let mut cmap = vec![];
     let mut mk = |rng: &mut Rng, which: u8, present: bool| -> TableSpec {
         if !present { return TableSpec::None; }
         if rng.below(10) < f1_weight {
-            let (s, m, c) = gen_f1(rng, which, allow_errors);
+            let (s, m, c) = gen_f1(rng, which, allow_errors, rich);
             if cmap.is_empty() { maxp = m; cmap = c; }
             let mut s = s;
             if s.glyph_count != maxp as u32 && !(allow_errors && rng.chance(1, 20)) {
@@ -832,12 +875,20 @@ fn gen_scenario(rng: &mut Rng, allow_errors: bool, f1_weight: u64) -> Scenario {
 // cases
 // ------------------------------------------------------------------------------------------
 
-fn isect_and_select(s: &mut Session, rng: &mut Rng, sc: &Scenario, ndefs: usize) {
+fn isect_and_select(s: &mut Session, rng: &mut Rng, sc: &Scenario, ndefs: usize, feat_heavy: bool) {
     let (font, ta_inv, tb_inv) = sc.build(true);
     let (_, ta_map, tb_map) = sc.build(false);
     let all_offer = offered(&font, &SubsetDefinition::all());
     for _ in 0..ndefs {
-        let d = gen_def(rng, 90);
+        let mut d = gen_def(rng, 90);
+        if feat_heavy && rng.chance(2, 3) {
+            d.feature_tags = if rng.chance(1, 3) { FeatureSet::All } else {
+                let mut t: BTreeSet<Tag> = FEATURE_POOL.iter().map(|t| Tag::new(t)).collect();
+                for x in FEATURE_POOL.iter() { if rng.chance(1, 4) { t.remove(&Tag::new(x)); } }
+                FeatureSet::Set(t)
+            };
+            if rng.chance(1, 2) { d.codepoints = if rng.chance(1, 2) { IntSet::all() } else { let mut c = IntSet::empty(); c.insert_range(0x20..=0x60); c }; }
+        }
         let dt = def_tokens(&d);
         let (ta, tb) = if d.codepoints.is_inverted() { s.count("isect:def-inverted"); (&ta_inv, &tb_inv) } else { (&ta_map, &tb_map) };
         let off = offered(&font, &d);
@@ -850,6 +901,58 @@ fn isect_and_select(s: &mut Session, rng: &mut Rng, sc: &Scenario, ndefs: usize)
         s.oracle("isect-no-panic", off.is_ok(), input, || shown.clone());
         match &off { Ok(Ok(v)) => { s.count(if v.is_empty() { "isect:empty" } else { "isect:nonempty" }); for (u, _) in v { s.count(&format!("isect:fmt{}", fmt_number(&u.encoding))); } }
                      Ok(Err(e)) => s.count(&format!("isect:{}", e.chars().take(40).collect::<String>())), Err(_) => s.count("isect:panic") }
+        // oracle: the offer is exactly what the declarative rule says (format 2), and never contains
+        // an applied entry or entry 0 (format 1)
+        if let Ok(Ok(v)) = &off {
+            for (iftx, spec) in [(false, &sc.ift), (true, &sc.iftx)] {
+                let got: Vec<usize> = v.iter().filter(|(u, _)| u.is_iftx == iftx).map(|(u, _)| u.application_flag_bit_index).collect();
+                match spec {
+                    TableSpec::F2(_) => {
+                        let es = catch(|| { let f = FontRef::new(&font).unwrap(); pmh::format2_entries(&f, iftx).ok() });
+                        if let Ok(Some(es)) = es {
+                            let want = spec_offer(&es, &d);
+                            s.oracle("format2-offer-equals-declarative-spec", got == want, input, || format!("table={} offered bits={got:?} spec bits={want:?}", if iftx { "IFTX" } else { "IFT" }));
+                            if !want.is_empty() { s.count("spec:nonempty"); }
+                            if es.iter().any(|e| e.ignored && !e.child_indices.is_empty()) { s.count("spec:ignored-with-children"); }
+                        } else {
+                            s.oracle("format2-offer-equals-declarative-spec", false, input, || "offer succeeded but the entries do not decode".into());
+                        }
+                    }
+                    TableSpec::F1(t) => {
+                        // bit = bitmap start * 8 + entry index; recover the index from the smallest possible start
+                        let ok = v.iter().filter(|(u, _)| u.is_iftx == iftx).all(|(u, _)| match u.id {
+                            PatchId::Numeric(ix) => ix > 0 && (ix as usize) / 8 < t.bitmap.len() && t.bitmap[ix as usize / 8] & (1 << (ix % 8)) == 0 && ix <= t.max_entry as u32,
+                            _ => false,
+                        });
+                        s.oracle("format1-offer-excludes-applied-and-entry0", ok, input, || format!("offered={shown} bitmap={}", hex(&t.bitmap)));
+                        // glyph-map part of the offer, straight from the specification: entry index of every
+                        // glyph a requested codepoint maps to, if it is <= max_glyph_map_entry_index; the
+                        // feature map can only add entries above that index
+                        let expect: BTreeSet<u32> = {
+                            let f = FontRef::new(&font).unwrap();
+                            let cm = Charmap::new(&f);
+                            let pairs: Vec<(u32, u32)> = if d.codepoints.is_inverted() {
+                                cm.mappings().filter(|(c, _)| d.codepoints.contains(*c)).map(|(c, g)| (c, g.to_u32())).collect()
+                            } else {
+                                d.codepoints.iter().filter_map(|c| cm.map(c).map(|g| (c, g.to_u32()))).collect()
+                            };
+                            pairs.iter().filter_map(|(_, g)| {
+                                let ix = if *g < t.first_gid as u32 { 0 } else { *t.entry_index.get((*g - t.first_gid as u32) as usize)? as u32 & if t.max_entry < 256 { 0xFF } else { 0xFFFF } };
+                                Some(ix)
+                            }).filter(|ix| *ix > 0 && *ix <= t.max_gm as u32 && t.bitmap[*ix as usize / 8] & (1 << (ix % 8)) == 0).collect()
+                        };
+                        let got_ix: Vec<u32> = v.iter().filter(|(u, _)| u.is_iftx == iftx).filter_map(|(u, _)| match u.id { PatchId::Numeric(ix) => Some(ix), _ => None }).collect();
+                        let low: BTreeSet<u32> = got_ix.iter().copied().filter(|ix| *ix <= t.max_gm as u32).collect();
+                        s.oracle("format1-glyph-map-offer-equals-spec", low == expect, input, || format!("offered={shown} expected glyph-map entries={expect:?}"));
+                        if !expect.is_empty() { s.count("spec:f1-glyph-nonempty"); }
+                        if got_ix.iter().any(|ix| *ix > t.max_gm as u32) { s.count("spec:f1-feature-entries"); }
+                        let sorted = got.windows(2).all(|w| w[0] < w[1]);
+                        s.oracle("format1-offer-in-entry-order-once-each", sorted, input, || format!("offered={shown}"));
+                    }
+                    TableSpec::None => { s.oracle("no-table-no-offer", got.is_empty(), input, || shown.clone()); }
+                }
+            }
+        }
         // oracle: ⊆ offer(all)
         if let (Ok(Ok(v)), Ok(Ok(all))) = (&off, &all_offer) {
             let all_ids: BTreeSet<_> = all.iter().map(|(u, _)| ident(u)).collect();
@@ -994,6 +1097,30 @@ fn decode_cases(s: &mut Session, rng: &mut Rng, n: usize) {
                    Ok(Err(e)) => s.count(&format!("f2dec:{}", e.chars().take(48).collect::<String>())), Err(_) => s.count("f2dec:panic") }
         s.oracle("f2dec-no-panic", r.is_ok(), || format!("f2dec {which} {} | table={}", t.tokens, hex(&t.bytes)), || shown.clone());
         if let Ok(Ok(es)) = &r {
+            // the decoded entries say what the table bytes were built from
+            let mut bad: Vec<String> = vec![];
+            if es.len() != spec.raws.len() { bad.push(format!("entry count {} vs {}", es.len(), spec.raws.len())); }
+            for (i, (e, r)) in es.iter().zip(spec.raws.iter()).enumerate() {
+                let mode = (r.flags >> 4) & 3;
+                let bias = match mode { 2 | 3 => r.bias as u64, _ => 0 };
+                let mut want = IntSet::<u32>::empty();
+                if mode != 0 { for c in r.cps.iter() { let v = c as u64 + bias; if v <= 0x10FFFF { want.insert(v as u32); } } }
+                if e.subset_definition.codepoints != want { bad.push(format!("entry {i}: codepoints {} vs {}", show_ranges_u32(&e.subset_definition.codepoints), show_ranges_u32(&want))); }
+                let wf: BTreeSet<Tag> = if r.flags & 1 != 0 { r.feats.iter().copied().collect() } else { BTreeSet::new() };
+                if e.subset_definition.feature_tags != FeatureSet::Set(wf) { bad.push(format!("entry {i}: features")); }
+                if e.ignored != (r.flags & 0x40 != 0) { bad.push(format!("entry {i}: ignored flag")); }
+                let wc: Vec<usize> = if r.flags & 2 != 0 { r.children.iter().map(|c| *c as usize).collect() } else { vec![] };
+                if e.child_indices != wc { bad.push(format!("entry {i}: children")); }
+                if e.conjunctive_child_match != (r.flags & 2 != 0 && r.child_byte & 0x80 != 0) { bad.push(format!("entry {i}: conjunctive flag")); }
+                let wfmt = if r.flags & 8 != 0 { r.fmt } else { spec.default_format };
+                if fmt_number(&e.uri.encoding) != wfmt { bad.push(format!("entry {i}: format")); }
+                if let DesignSpace::Ranges(m) = &e.subset_definition.design_space {
+                    let mut wm: HashMap<Tag, RangeSet<Fixed>> = HashMap::new();
+                    if r.flags & 1 != 0 { for (t, a, b) in &r.segs { wm.entry(*t).or_default().insert(Fixed::from_bits(*a)..=Fixed::from_bits(*b)); } }
+                    if *m != wm { bad.push(format!("entry {i}: design space")); }
+                } else { bad.push(format!("entry {i}: design space All")); }
+            }
+            s.oracle("decoded-entries-match-the-table-spec", bad.is_empty(), || format!("f2dec {which} {} | table={}", t.tokens, hex(&t.bytes)), || bad.join("; "));
             let ok = es.iter().enumerate().all(|(i, e)| e.child_indices.iter().all(|c| *c < i));
             s.oracle("children-refer-to-prior-entries", ok, || format!("f2dec {which} {}", t.tokens), || shown.clone());
         }
@@ -1265,26 +1392,120 @@ fn f1_overflow_cases(s: &mut Session) {
     }
 }
 
+
+
+/// The extension loop itself lives in `src/bin/ift_extend.rs` (not a library function).  Two ties:
+/// (1) source tie: inside `for uri in next_patches.uris()` the status map is only written for uris
+/// that have no status yet; (2) the library run on the smallest "patch that never marks its entry"
+/// case with that client ends in an error in round 2, while a client that re-inserts `Pending`
+/// (what the binary did before fix 980e661) spins until the fuel is gone.
+fn extend_loop_cases(s: &mut Session) {
+    let manifest = std::fs::read_to_string(concat!(env!("CARGO_MANIFEST_DIR"), "/Cargo.toml")).unwrap_or_default();
+    let repo_path = manifest.lines().find(|l| l.starts_with("incremental-font-transfer"))
+        .and_then(|l| l.split('"').nth(1)).unwrap_or("/repo/incremental-font-transfer").to_string();
+    let src = std::fs::read_to_string(format!("{repo_path}/src/bin/ift_extend.rs")).unwrap_or_default();
+    let guarded = (|| {
+        let a = src.find("for uri in next_patches.uris()")?;
+        let b = a + src[a..].find("patch_data.insert(")?;
+        let body = &src[a..b];
+        Some(body.contains("patch_data.contains_key(uri)") && body.contains("continue;"))
+    })().unwrap_or(false);
+    s.oracle("ift_extend-loop-keeps-applied-status", guarded,
+        || format!("{repo_path}/src/bin/ift_extend.rs: for uri in next_patches.uris() {{ .. patch_data.insert(..) }}"),
+        || "the loop writes Pending for a uri that already has a status (an applied uri would be applied again, forever)".into());
+
+    let mut cps = IntSet::<u32>::empty();
+    cps.insert(65);
+    let spec = F2Spec { compat: [1; 16], default_format: 2, id_strings: None, template: b"{id}".to_vec(),
+        raws: vec![RawSpec { flags: 0x10, feats: vec![], segs: vec![], child_byte: 0, children: vec![], delta: 0, fmt: 0, bias: 0, cps, bf: 0, bad_cps: false }],
+        field_flags: 0 };
+    let table = spec.build().bytes;
+    let font0 = build_font(Some(&table), None, 3, &[]);
+    let patch = tk_patch(&[1; 16], &[(Tag::new(b"IFT "), table.clone())]);
+    for overwrite in [false, true] {
+        let r = catch(|| {
+            let mut font = font0.clone();
+            let mut pd: HashMap<String, UriStatus> = HashMap::new();
+            for round in 0..50usize {
+                let f = FontRef::new(&font).unwrap();
+                let g = PatchGroup::select_next_patches(f, &SubsetDefinition::all()).unwrap();
+                if !g.has_uris() { return format!("done after {round}"); }
+                let uris: Vec<String> = g.uris().map(|u| u.to_string()).collect();
+                for u in uris { if overwrite || !pd.contains_key(&u) { pd.insert(u, UriStatus::Pending(patch.clone())); } }
+                match g.apply_next_patches_with_decoder(&mut pd, &NoopBrotliDecoder) {
+                    Ok(nf) => font = nf,
+                    Err(e) => return format!("error {} after {round}", patching_err(&e)),
+                }
+            }
+            "fuel".to_string()
+        });
+        let shown = match &r { Ok(x) => x.clone(), Err(p) => format!("panic:{p}") };
+        if overwrite {
+            s.count(&format!("loop:overwrite-client:{shown}"));
+        } else {
+            s.oracle("identity-patch-run-ends-with-error-in-round-2", shown == "error err:EmptyPatchList after 1",
+                || "font with one partially invalidating entry (uri 04); patch 04 replaces 'IFT ' by the identical table; fetch-missing client".into(),
+                || shown.clone());
+        }
+    }
+}
+
+/// a valid brotli stream holding `data` as one uncompressed meta-block (window bits 16)
+fn brotli_stored(data: &[u8]) -> Vec<u8> {
+    assert!(!data.is_empty() && data.len() <= 65536);
+    let v: u32 = (((data.len() - 1) as u32) << 4) | (1 << 20);
+    let mut b = vec![v as u8, (v >> 8) as u8, (v >> 16) as u8];
+    b.extend(data);
+    b.push(0x03);
+    b
+}
+
+/// Files for the real `ift_extend` binary: a font whose only mapping entry names uri "04" (a
+/// partially invalidating patch), and a patch "04" that replaces 'IFT ' by the identical table, i.e.
+/// never marks the entry as applied.
+fn emit_loop_case(dir: &str) {
+    let mut cps = IntSet::<u32>::empty();
+    cps.insert(65);
+    let spec = F2Spec { compat: [1; 16], default_format: 2, id_strings: None, template: b"{id}".to_vec(),
+        raws: vec![RawSpec { flags: 0x10, feats: vec![], segs: vec![], child_byte: 0, children: vec![], delta: 0, fmt: 0, bias: 0, cps, bf: 0, bad_cps: false }],
+        field_flags: 0 };
+    let table = spec.build().bytes;
+    let font = build_font(Some(&table), None, 3, &[]);
+    let patch = tk_patch(&[1; 16], &[(Tag::new(b"IFT "), brotli_stored(&table))]);
+    // tk_patch wrote the stream length as max uncompressed length; that is >= the table length
+    std::fs::write(format!("{dir}/font.ttf"), &font).unwrap();
+    std::fs::write(format!("{dir}/04"), &patch).unwrap();
+    let f = FontRef::new(&font).unwrap();
+    let g = PatchGroup::select_next_patches(f, &SubsetDefinition::all()).unwrap();
+    println!("uris: {:?}", g.uris().collect::<Vec<_>>());
+}
+
 fn run(cfg: &Config, s: &mut Session) {
     if std::env::var("C19_DEBUG").is_ok() {
         std::panic::set_hook(Box::new(|i| eprintln!("{i}")));
     }
     let mut rng = Rng::new(cfg.seed);
-    let scale = if cfg.thorough() { 12 } else { 1 };
+    let scale = if cfg.thorough() { 60 } else { 5 };
     uri_cases(s, &mut rng, 1500 * scale);
     decode_cases(s, &mut rng, 2500 * scale);
     for i in 0..(1200 * scale) {
-        let sc = gen_scenario(&mut rng, i % 3 == 0, if i % 2 == 0 { 0 } else { 6 });
-        isect_and_select(s, &mut rng, &sc, 4);
+        let rich = i % 4 == 3;
+        let sc = gen_scenario(&mut rng, i % 3 == 0, if rich { 8 } else if i % 2 == 0 { 0 } else { 6 }, rich);
+        isect_and_select(s, &mut rng, &sc, 4, rich);
     }
     run_cases(s, &mut rng, 400 * scale);
     f1_overflow_cases(s);
+    extend_loop_cases(s);
     chain_cases(s, cfg);
     s.notes.push("the font's character map is taken as given (skrifa Charmap::mappings, property C08); sparse-bit-set / IntSet / RangeSet internals are property C14".into());
 }
 
 fn main() {
     let args: Vec<String> = std::env::args().collect();
+    if args.len() == 3 && args[1] == "--emit-loop-case" {
+        emit_loop_case(&args[2]);
+        return;
+    }
     if args.len() == 4 && args[1] == "--child-chain" {
         child_chain(args[2].parse().unwrap(), args[3] == "1");
         return;
